@@ -52,7 +52,10 @@ def run_behaviour(bid, beh, seed, observe=None, expose=None):
     if isinstance(init, list):
         init = {str(i + 1): v for i, v in enumerate(init)}
     for o, shape in init.items():
-        ro = parse_ro(g.ro(shape))
+        ro_text = g.ro(shape)
+        ro = parse_ro(ro_text)
+        if not execute.same_reading(ro, ro_text):
+            return [execute.parse_event("%s.0.o%s" % (bid, o), "ro")]
         if not project.bind(shape, project.project_ro(ro), table):
             raise Machinery("gamma/alpha round trip failed for initial running order of %s" % bid)
         objs[int(o)] = ro
@@ -89,6 +92,9 @@ def run_behaviour(bid, beh, seed, observe=None, expose=None):
                               completed_acc=execute.completed_of(ro))
                     events.append(ev)
                     continue
+                if not execute.same_reading(m, text):
+                    events.append(execute.parse_event(eid, "msg"))
+                    return events
                 live[idx] = (m, str(m), expose(m, mabs["cls"]) if expose else None)
             else:
                 if step["ref"] not in live:
